@@ -231,8 +231,96 @@ func runC15(outDir string, seed int64, tier string) {
 		}
 		_ = sol
 	}
+	// several list-valued variables of one answer into maps, structs and interface{} destinations: every value
+	// must arrive unaltered whatever the destination shares internally
+	rr := &rng{s: uint64(seed) ^ hashString("C15lists")}
+	for i := 0; i < 300; i++ {
+		nv := 2 + rr.intn(3)
+		var lists [][]int
+		var goals []string
+		names := []string{"X", "Y", "Z", "W"}
+		for k := 0; k < nv; k++ {
+			var l []int
+			for j, m := 0, rr.intn(6); j < m; j++ {
+				l = append(l, rr.intn(100)-20)
+			}
+			lists = append(lists, l)
+			var es []string
+			for _, e := range l {
+				es = append(es, fmt.Sprint(e))
+			}
+			goals = append(goals, fmt.Sprintf("%s = [%s]", names[k], strings.Join(es, ",")))
+		}
+		q := strings.Join(goals, ", ") + " ."
+		desc := map[string]interface{}{"text": q + " scanned into maps and a struct"}
+		sum.Evaluations++
+		sum.count("scan:multi-list")
+		want := fmt.Sprint(lists)
+		get := func(m map[string][]int) string {
+			var ls [][]int
+			for k := 0; k < nv; k++ {
+				l := m[names[k]]
+				if l == nil {
+					l = []int{}
+				}
+				ls = append(ls, l)
+			}
+			return fmt.Sprint(ls)
+		}
+		norm := func(ls [][]int) string {
+			for i := range ls {
+				if ls[i] == nil {
+					ls[i] = []int{}
+				}
+			}
+			return fmt.Sprint(ls)
+		}
+		want = norm(lists)
+		mi := map[string][]int{}
+		if err := p.QuerySolution(q).Scan(mi); err != nil || get(mi) != want {
+			fail("scan:map-of-slices:stores-altered-value", desc, fmt.Sprint(get(mi), err), want)
+		}
+		m64 := map[string][]int64{}
+		if err := p.QuerySolution(q).Scan(m64); err == nil {
+			conv := map[string][]int{}
+			for k, l := range m64 {
+				for _, e := range l {
+					conv[k] = append(conv[k], int(e))
+				}
+			}
+			if get(conv) != want {
+				fail("scan:map-of-slices:stores-altered-value", desc, get(conv), want)
+			}
+		}
+		ma := map[string]interface{}{}
+		if err := p.QuerySolution(q).Scan(ma); err == nil {
+			conv := map[string][]int{}
+			for k, v := range ma {
+				if l, ok := v.([]interface{}); ok {
+					for _, e := range l {
+						if n, ok := e.(int); ok {
+							conv[k] = append(conv[k], n)
+						}
+					}
+				}
+			}
+			if get(conv) != want {
+				fail("scan:map-of-interface:stores-altered-value", desc, get(conv), want)
+			}
+		}
+		var st struct{ X, Y, Z, W []int }
+		if err := p.QuerySolution(q).Scan(&st); err != nil || norm([][]int{st.X, st.Y, st.Z, st.W}[:nv]) != want {
+			fail("scan:struct-of-slices:stores-altered-value", desc, fmt.Sprint(st, err), want)
+		}
+		// strings too
+		qs := "X = [foo, bar], Y = [baz], Z = [] ."
+		ms := map[string][]string{}
+		if err := p.QuerySolution(qs).Scan(ms); err != nil || fmt.Sprint(ms["X"], ms["Y"], len(ms["Z"])) != "[foo bar] [baz] 0" {
+			fail("scan:map-of-slices:stores-altered-value", map[string]interface{}{"text": qs + " scanned into map[string][]string"}, fmt.Sprint(ms, err), "[foo bar] [baz] []")
+		}
+	}
 	sum.Samples = append(sum.Samples, "X = 300 scanned into int8", `placeholder string "foo :- bar."`, "X = ? with 2 arguments")
-	sum.Rule = "placeholders: strings assembled from syntactically significant pieces (quotes, backslash, '.', ':-', newline, NUL, comment markers, brackets, non-BMP characters) under each double_quotes setting, integers of all widths, floats, nested slices, count mismatches; Scan: integers at the width boundaries and random ones into int/int8/int16/int32/int64/float64, []int8, interface{}, floats into float64/int, atoms into string; distinct by value and destination; every case is non-trivial"
+	sum.Rule = "placeholders: strings assembled from syntactically significant pieces (quotes, backslash, '.', ':-', newline, NUL, comment markers, brackets, non-BMP characters) under each double_quotes setting, integers of all widths, floats, nested slices, count mismatches; Scan: integers at the width boundaries and random ones into int/int8/int16/int32/int64/float64, []int8, interface{}, floats into float64/int, atoms into string; answers with 2-4 list-valued variables into map[string][]int, map[string][]int64, map[string]interface{}, map[string][]string and a struct of slices; distinct by value and destination; every case is non-trivial"
 	header := "From Coq Require Import ZArith List String.\nFrom PV Require Import Model.Scan Gen.Scan_gen Model.ScanCheck.\nImport ListNotations.\nOpen Scope string_scope.\nOpen Scope Z_scope.\n"
 	writeCases(filepath.Join(outDir, "cases_scan_0.v"), header, "sccase", "check_scan", cases)
 	sum.CaseFiles = append(sum.CaseFiles, "cases_scan_0.v")
